@@ -174,6 +174,25 @@ def _oracle(case, out):
         if st == 0:
             if len(bs) != consumed or val != consumed:
                 return "copy Ok: consumed %d, sank %d, reported %d" % (consumed, len(bs), val)
+            # reference reader: copy may only report success at the reader's end-of-file
+            pos, i, stopped = 0, 0, False
+            while i < len(rs) and bsz > 0:
+                kind, n = rs[i]
+                i += 1
+                if kind == 0:
+                    k = min(n, bsz, len(src) - pos)
+                    if k == 0:
+                        break
+                    pos += k
+                elif kind == 1:
+                    if n != 3:      # not Interrupted: copy must have failed
+                        stopped = True
+                        break
+                else:
+                    break
+            if bsz > 0 and not stopped and consumed != pos:
+                return ("copy reported success after %d bytes, but the reader delivers %d bytes before its "
+                        "end-of-file (the rest of the stream was silently dropped)" % (consumed, pos))
             if evs[-2:] != [("f",), ("s",)]:
                 return "copy Ok without final flush+shutdown"
             if consumed == 0 and src and rs and rs[0][0] == 0 and rs[0][1] > 0:
@@ -210,7 +229,11 @@ def _oracle(case, out):
         ops = []
         for _ in range(no):
             t = c.take()
-            ops.append((t, c.bytes() if t == 1 else None))
+            if t == 4:
+                # write_vectored: accepted bytes are a prefix of the concatenated segments
+                ops.append((1, sum((c.bytes() for _ in range(c.take())), [])))
+            else:
+                ops.append((t, c.bytes() if t == 1 else None))
         accepted = []
         results = [(st, val)]
         for _ in range(no - 1):
